@@ -27,7 +27,11 @@ AlphaSeq == <<
     Arg(0, "none",   0, 2, 0, 9),    \* 10  bare -isystem
     Arg(0, "none",   0, 3, 1, 9),    \* 11  <default dir> on its own
     Arg(0, "unique", 0, 0, 0, 3),    \* 12  -pthread / -pipe (once-only, not a library)
-    Arg(0, "none",   0, 0, 1, 2)     \* 13  /abs/obj.o
+    Arg(0, "none",   0, 0, 1, 2),    \* 13  /abs/obj.o
+    \* arguments matched by several classification rules (ArgListClassify): the prefix decides
+    Arg(0, "over",   2, 0, 0, 3),    \* 14  -DSUFFIX=.so / -isystem/sdk/libfw.so.1 (override-type; library-like value)
+    Arg(1, "over",   2, 0, 0, 3),    \* 15  -Ithird_party/zlib.a / -L/usr/lib/libz.so.1
+    Arg(0, "unique", 2, 0, 0, 4)     \* 16  -Wl,-rpath,/opt/x.a (once-only by its prefix)
 >>
 
 InsertIdx == {0, 1, -1}   \* indices tried by insert (front, second, before the last)
